@@ -31,6 +31,8 @@ CONST_OUTPUT_PROB = 0.0
 PASSTHROUGH_PROB = 0.08
 # probability that the tensor table of a subgraph is NOT in creation order
 TENSOR_ORDER_SHUFFLE_PROB = 0.3
+# probability that a multi-signature model lists its signatures in another order than its subgraphs
+SIG_ORDER_SHUFFLE_PROB = 0.4
 # value distribution of generated float constants (a check may narrow it)
 CONST_KINDS = ['normal'] * 6 + ['pos', 'neg', 'tiny', 'big', 'zero']
 
@@ -131,6 +133,22 @@ class GraphBuilder:
       vals = vals * 1e4
     elif kind == 'zero':
       vals = vals * 0
+    elif kind in ('zp0_8', 'zp0_4'):
+      # asymmetric range whose real-valued zero point lies just above an integer that is 0:
+      # (qmin - min/scale) = 0.25, so the zero point rounds to 0 although the range is NOT
+      # symmetric; the minimum element is the code qmin exactly
+      levels, qmin = (255, 128) if kind == 'zp0_8' else (15, 8)
+      step = float(rng.choice([0.01, 0.003, 0.05]))
+      lo, hi = -(qmin + 0.25) * step, (levels - qmin - 0.25) * step
+      vals = np.array([rng.uniform(lo, hi) for _ in range(n)], dtype=np.float32)
+      for i in range(n):
+        r_ = rng.random()
+        if r_ < 0.3:
+          vals[i] = lo
+        elif r_ < 0.6:
+          vals[i] = hi
+      if n >= 2:
+        vals[0], vals[-1] = lo, hi
     elif kind == 'huge':     # around and beyond the float16 range (max 65504; 65520 rounds to inf)
       vals = vals * 1e5
       edge = [65504.0, 65519.0, 65520.0, -65520.0, 7e4, -3e7, 6.1e-5, 5.9e-8, 2.9e-8]
@@ -576,6 +594,10 @@ def gen_model(rng, n_subgraphs=None, max_ops=8, op_weights=None, force_share=Fal
   if n_subgraphs > 1 and r < SAME_SG_NAME_PROB:
     for gb in gbs:
       gb.g.name = b'main' if r < SAME_SG_NAME_PROB * 0.7 else None
+  # the ORDER of the signature list need not follow the order of the subgraphs
+  # (signature i points at subgraph signatureDefs[i].subgraphIndex, not at subgraph i)
+  if n_subgraphs > 1 and rng.random() < SIG_ORDER_SHUFFLE_PROB and mb.m.signatureDefs:
+    rng.shuffle(mb.m.signatureDefs)
   return mb.finish(), {'n_subgraphs': n_subgraphs,
                        'ops': [g.nops for g in gbs]}
 
@@ -631,6 +653,38 @@ def shared_weight_model(rng):
     tm = S.TensorMapT(); tm.name = f'y{i}'.encode(); tm.tensorIndex = int(t); sd.outputs.append(tm)
   mb.m.signatureDefs.append(sd)
   return mb.finish(), {'n_subgraphs': 1, 'ops': [2]}
+
+
+def shared_operand_model(rng):
+  """x -> op1(x, C) -> op2(y1, C): ONE constant tensor read by two element-wise ops
+  (as an activation-type operand): rules that give the two ops different
+  activation widths want two representations of C at once"""
+  mb = ModelBuilder(rng, name_style=0)
+  gb = GraphBuilder(mb, 0, 'serving_default')
+  bsz, n = rng.choice([1, 2]), rng.choice([3, 4, 6])
+  x = gb.act('serving_default_x', (bsz, n))
+  gb.g.inputs.append(x)
+  c = gb.fconst('serving_default/shared/c', [n] if rng.random() < 0.5 else [bsz, n], kind='normal')
+  kinds = rng.sample(['ADD', 'MUL', 'SUB'], 2)
+  ot = {'ADD': (S.BuiltinOptions.AddOptions, S.AddOptionsT),
+        'SUB': (S.BuiltinOptions.SubOptions, S.SubOptionsT),
+        'MUL': (S.BuiltinOptions.MulOptions, S.MulOptionsT)}
+  cur = x
+  for i, kind in enumerate(kinds):
+    out = gb.act(f'serving_default/{kind.lower()}_{i}/out', (bsz, n))
+    gb.op(getattr(B, kind), [cur, c], [out], ot[kind][0], gb._mk(ot[kind][1], fusedActivationFunction=0))  # pylint: disable=protected-access
+    cur = out
+  gb.g.outputs = np.array([cur], dtype=np.int32)
+  gb.g.inputs = np.array(gb.g.inputs, dtype=np.int32)
+  mb.m.subgraphs.append(gb.g)
+  sd = S.SignatureDefT()
+  sd.signatureKey = b'serving_default'
+  sd.subgraphIndex = 0
+  sd.inputs, sd.outputs = [], []
+  tm = S.TensorMapT(); tm.name = b'x'; tm.tensorIndex = int(x); sd.inputs.append(tm)
+  tm = S.TensorMapT(); tm.name = b'y'; tm.tensorIndex = int(cur); sd.outputs.append(tm)
+  mb.m.signatureDefs.append(sd)
+  return mb.finish(), {'n_subgraphs': 1, 'ops': [2], 'kinds': kinds}
 
 
 def fc3d_model(rng):
